@@ -74,13 +74,14 @@ Proof. field. Qed.
 (* the Quaternion(q) constructor divides a unit q by its norm sqrt(1) = 1.  U : w*w + x*x + y*y + z*z = 1.
    First the literal sum emitted for np.linalg.norm; then any other small radicand that `ring` identifies with it. *)
 Ltac unitq_norm U :=
-  rewrite ?U;
+  first [ rewrite !U | idtac ];
+  lazymatch goal with |- context [sqrt 1] => idtac | _ =>
   repeat match goal with
   | |- context [sqrt ?e] =>
       lazymatch e with context [sqrt _] => fail | context [Rinv _] => fail | context [Rdiv _ _] => fail | 1 => fail | _ => idtac end;
       let H := fresh in
       match type of U with ?l = 1 => assert (H : e = l) by ring end; rewrite H; clear H; rewrite U
-  end;
+  end end;
   rewrite ?sqrt_1, ?div_one.
 
 (* the Quaternion(...) constructor's zero test and the `norm == 0` early exits:  0 = sqrt e  with e > 0 is impossible *)
@@ -105,3 +106,33 @@ Ltac unit_by_norm :=
               [ rewrite sqrt_sqrt; [ring | replace e with (sq4 a b c d) by (unfold sq4; ring); apply sq4_nonneg]
               | apply sqrt_pos_ne0; replace e with (a*a + b*b + c*c + d*d) by ring ] ]
   end.
+
+(* ------------------------------------------------------------------------------------------------------------
+   the PARTIAL statement shared by every filter that ends in `v / ||v||`: whatever path is taken, a returned value is
+   a unit quaternion, or -- only when the pre-normalisation vector v is exactly zero, where binary64 gives NaN and
+   Coq's total division gives 0 -- the zero vector.  Rejections (Raise) are judged by the guard theorems. *)
+Definition unit_or_degenerate (o : outcome R) : Prop :=
+  match o with
+  | Val [p; q; r; t] => qnorm2 [p; q; r; t] = 1 \/ (p = 0 /\ q = 0 /\ r = 0 /\ t = 0)
+  | Val _ => False
+  | Raise _ => True
+  end.
+
+Lemma div_norm_unit_or_zero a b c d :
+  qnorm2 [a / sqrt (a*a + b*b + c*c + d*d); b / sqrt (a*a + b*b + c*c + d*d); c / sqrt (a*a + b*b + c*c + d*d); d / sqrt (a*a + b*b + c*c + d*d)] = 1
+  \/ (a / sqrt (a*a + b*b + c*c + d*d) = 0 /\ b / sqrt (a*a + b*b + c*c + d*d) = 0 /\ c / sqrt (a*a + b*b + c*c + d*d) = 0 /\ d / sqrt (a*a + b*b + c*c + d*d) = 0).
+Proof.
+  destruct (Req_dec (a*a + b*b + c*c + d*d) 0) as [Z|NZ].
+  - right. assert (Z0 : a = 0) by nra. assert (Z1 : b = 0) by nra. assert (Z2 : c = 0) by nra. assert (Z3 : d = 0) by nra.
+    rewrite Z0, Z1, Z2, Z3. unfold Rdiv. rewrite !Rmult_0_l. repeat split; reflexivity.
+  - left. apply unit_of_div_sqrt. nra.
+Qed.
+
+(* every leaf of the decision tree *)
+Ltac leaf_unit_or_degenerate U :=
+  first [ exact I
+        | apply div_norm_unit_or_zero
+        | left; cbv [qnorm2 e List.nth]; first [exact U | rewrite <- U; ring]
+        | match goal with |- qnorm2 [?a / sqrt ?e; ?b / sqrt ?e; ?c / sqrt ?e; ?d / sqrt ?e] = 1 \/ _ =>
+            replace e with (a*a + b*b + c*c + d*d) by ring; apply div_norm_unit_or_zero end ].
+Ltac all_leaves U := cbv zeta; unfold unit_or_degenerate; repeat destr_dec; leaf_unit_or_degenerate U.
